@@ -900,8 +900,8 @@ def _array_truncated(case, obs, f):
 
 FINDING_CLASSIFIERS = {
     'array_write_truncated': _array_truncated,
-    # a line of an update action without identifier ("update . [..]") is looked up as f'{None}:value' and lands in
-    # the module literally named "None"
+    # (fixed in /repo by 0fe05ab) a line of an update action without identifier ("update . [..]") was looked up as
+    # f'{None}:value' and landed in the module literally named "None"
     'missing_ident_module_None': lambda case, obs, f: f['class'] == 'unaddressed-accepted'
     and f.get('module') == 'None' and _has_none_module(case),
 }
@@ -1020,7 +1020,8 @@ def gen_line(rng, desc, dts, now):
         ident = rng.choice(['nomod:value', f'{m}:nopar', 'nomod', f'{m}:{internal_name(a)}x', f'{m}:', ':value'])
     elif r < 0.30:
         ident = None
-    # (the pinned client reads a missing identifier as module "None": keep the payload clear-cut for that datatype too)
+    # (before commit 0fe05ab the client read a missing identifier as module "None": keep the payload clear-cut for
+    # that datatype too, so that a regression shows up as an oracle failure and not as an unclear payload)
     res = spec_resolve(desc, action, ident if ident is not None else 'None')
     di = dts[res[3]] if res and res[2] == 'p' else dts[dt]
     t = gen_t(rng, now)
